@@ -28,6 +28,8 @@ M = [
  ('tp21-snapshot-dropped', 'j1939_21.py', "        for bufid in list(self._rcv_buffer):\n            buf = self._rcv_buffer.get(bufid)", "        for bufid in self._rcv_buffer:\n            buf = self._rcv_buffer.get(bufid)", ['C08']),
  ('tp21-cts-handler-order', 'j1939_21.py', "            self._snd_buffer[buffer_hash]['next_wait_on_cts'] = self._snd_buffer[buffer_hash]['next_packet_to_send'] + num_packages - 1\n\n            self._snd_buffer[buffer_hash]['state'] = self.SendBufferState.SENDING_IN_CTS\n            self._snd_buffer[buffer_hash]['deadline'] = time.time()\n", "            self._snd_buffer[buffer_hash]['state'] = self.SendBufferState.SENDING_IN_CTS\n            self._snd_buffer[buffer_hash]['deadline'] = time.time()\n            self._snd_buffer[buffer_hash]['next_wait_on_cts'] = self._snd_buffer[buffer_hash]['next_packet_to_send'] + num_packages - 1\n", ['C08']),
  ('tp22-cts-handler-order', 'j1939_22.py', "            self._snd_buffer[buffer_hash]['next_wait_on_cts'] = self._snd_buffer[buffer_hash]['next_packet_to_send'] + num_segments - 1\n\n            self._snd_buffer[buffer_hash]['state'] = self.SendBufferState.SENDING_RTS_CTS\n            self._snd_buffer[buffer_hash]['deadline'] = time.time() # wake up immediately\n", "            self._snd_buffer[buffer_hash]['state'] = self.SendBufferState.SENDING_RTS_CTS\n            self._snd_buffer[buffer_hash]['deadline'] = time.time() # wake up immediately\n            self._snd_buffer[buffer_hash]['next_wait_on_cts'] = self._snd_buffer[buffer_hash]['next_packet_to_send'] + num_segments - 1\n", ['C08']),
+ ('ecu-timers-class-attr', 'electronic_control_unit.py', "        self._timer_events = []\n", "        self._timer_events = ElectronicControlUnit.__init__.__dict__.setdefault('shared_timers', [])\n", ['C12']),
+ ('ecu-subscribers-class-attr', 'electronic_control_unit.py', "        self._subscribers = []\n", "        self._subscribers = ElectronicControlUnit.__init__.__dict__.setdefault('shared_subscribers', [])\n", ['C05', 'C12']),
  ('tp21-buffer-hash', 'j1939_21.py', "        return ((src_address & 0xFF) << 8) | (dest_address & 0xFF)", "        return ((src_address & 0x7F) << 8) | (dest_address & 0xFF)", ['C01']),
  ('tp22-segments-rounding', 'j1939_22.py', "num_segments = int(message_size / self.DataLength.TP ) + ((message_size % self.DataLength.TP ) != 0)", "num_segments = int(message_size / self.DataLength.TP ) + 1", ['C02', 'C03']),
  ('tp22-session-nibble', 'j1939_22.py', "        data[0]  = ( (TpControlType & 0xF) | ((session_num & 0xF) << 4))", "        data[0]  = ( (TpControlType & 0xF) | ((session_num & 0x7) << 4))", ['C03', 'C02', 'C10']),
